@@ -107,6 +107,26 @@ def handle : Handler := fun j => do
     match SetupType.normTypes valid arg exact with
     | some (ts, ex) => pure (Json.mkObj [("out", "ok"), ("types", ofStrs ts), ("exact", ex)])
     | none => pure (Json.mkObj [("out", "err"), ("err", "EupsException")])
+  | "typeseq" =>
+    -- {"types": […], "exact": bool, "steps": [{"k": "deps", "fe": null | bool} | {"k": "actions"}], "text", "flavor", "pdir"}
+    let types ← jstrs j "types"
+    let ex := match j.getObjVal? "exact" with | .ok (Json.bool b) => b | _ => false
+    let stepsJ ← (← j.getObjVal? "steps").getArr?
+    let steps : List SetupType.Step ← stepsJ.toList.mapM fun sj => do
+      let k ← (← sj.getObjVal? "k").getStr?
+      if k == "deps" then
+        pure (SetupType.Step.deps (match sj.getObjVal? "fe" with | .ok (Json.bool b) => some b | _ => none))
+      else pure SetupType.Step.acts
+    let outs := SetupType.runSeq ex (← jstrOpt j "pdir") (← jstr j "flavor") (← jstr j "text") types steps
+    let outJ (o : SetupType.StepOut) : Json :=
+      Json.mkObj ([("state", ofStrs o.state)] ++
+        (match o.asked with | some a => [("asked", ofStrs a)] | none => []) ++
+        (match o.actions with
+         | some (.ok as) => [("actions", Json.arr (as.map actionJson).toArray)]
+         | some (.err e) => [("actions", errJson e)]
+         | some .fuel => [("actions", Json.mkObj [("out", "fuel")])]
+         | none => []))
+    pure (Json.mkObj [("out", "ok"), ("seq", Json.arr (outs.map outJ).toArray)])
   | "deptypes" =>
     let fe := match j.getObjVal? "followExact" with | .ok (Json.bool b) => b | _ => false
     pure (Json.mkObj [("out", "ok"), ("types", ofStrs (SetupType.depTypes fe (← jstrs j "types")))])
